@@ -56,12 +56,15 @@ func genTStep(rt *rapid.T, nc int, hostile bool) TStep {
 	st.C = rapid.IntRange(0, nc-1).Draw(rt, "c")
 	switch op {
 	case "Allocate", "Refresh":
-		st.Life = rapid.SampledFrom([]int64{-1, -1, -1, 0, 40, 600}).Draw(rt, "life")
+		st.Life = rapid.SampledFrom([]int64{-1, -1, -1, 0, 2, 5, 40, 600}).Draw(rt, "life")
 		if rapid.IntRange(0, 7).Draw(rt, "ou") == 0 {
 			st.U = rapid.IntRange(1, 3).Draw(rt, "u")
 		}
 	case "CreatePermission", "Connect":
 		st.P = rapid.SampledFrom([]int{0, 0, 0, 1, 1, 2, 3}).Draw(rt, "p")
+		if op == "Connect" && rapid.IntRange(0, 5).Draw(rt, "slowDial") == 0 {
+			st.N = rapid.SampledFrom([]int{1, 3, 10, 29, 31, 45}).Draw(rt, "dialS")
+		}
 		if rapid.IntRange(0, 9).Draw(rt, "ou") == 0 {
 			st.U = rapid.IntRange(1, 3).Draw(rt, "u")
 		}
